@@ -10,6 +10,9 @@ def main():
 
     def build(beh, k0):
         beh = [b for b in beh if b["zooms"]]
+        if run.thorough:
+            # the thorough enumeration is millions of layouts x every zoom query: a seeded stratum (1/2) per run keeps the tier under the hour
+            beh = beh[run.seed % 2::2]
         cases = make_cases(beh, "bb", sizes, run, zq=1, k0=k0)
         # the same layouts under an affine embedding of positions (resolutions scale with it: exact)
         emb = make_cases(beh[::5], "bb", sizes, run, zq=0, k0=k0)
